@@ -510,6 +510,7 @@ func VerifC08_J1(v *VerifV) {
 		case opFinalise, opRoot:
 			verifApply(s, op)
 			live = live[:0] // reverting across a finalise is not allowed
+			take()          // the next transaction starts with its own snapshot
 		default:
 			if !verifApply(s, op) {
 				return
